@@ -57,6 +57,8 @@ type Gen struct {
 	Suffix string
 	// GlobalVars are integer-valued special variables visible everywhere (C08).
 	GlobalVars []string
+	// GlobalConsts are integer-valued constants visible everywhere: read like the variables, never assigned.
+	GlobalConsts []string
 	// MacroName, when set, is a one-argument macro (m x) => (+ x 1) that int expressions may use (C08).
 	MacroName string
 	// FunPrefix is the prefix of generated function names (default "f").
@@ -193,6 +195,7 @@ func (g *Gen) single(e r.Val) r.Val {
 func (g *Gen) leafInt(env []binding) r.Val {
 	vs := varsOf(env, TInt)
 	vs = append(vs, g.GlobalVars...)
+	vs = append(vs, g.GlobalConsts...)
 	if len(vs) > 0 && g.pick("leafvar", 3) > 0 {
 		return sym(vs[g.pick("leafsel", len(vs))])
 	}
